@@ -99,7 +99,7 @@ def rule_gain(repo: Repo, rep: Report) -> int:
         ok = len(c.args) >= 2 and unparse(c.args[0]) == "batch_size" and unparse(c.args[1]) == "num_blocks"
         rep.shape(ok, len(c.args) >= 2 and (unparse(c.args[0]) in ("1", "num_blocks") or unparse(c.args[1]) in ("1", "seq_length", "batch_size")), "BLOCKS", fi, f"draw: {unparse(c)}", "one independent draw per batch item and coherence block", "coefficients are not drawn with shape (batch_size, num_blocks)", node=c)
         n += 1
-    rep.floor("fading draws", len(draws), 6)
+    rep.floor("fading draws", len(draws), 3)
     nb = [s for s in stmts_of(fi.body) if isinstance(s, ast.Assign) and unparse(s.targets[0]) == "num_blocks"]
     for s in nb:
         st, d, _ = classify(s.value, ["(seq_length + self.coherence_time - 1) // self.coherence_time", "-(-seq_length // self.coherence_time)", "math.ceil(seq_length / self.coherence_time)"], int_context=False)
